@@ -272,8 +272,14 @@ def c20_shard(args):
         for run in range(4):
             cwd = os.path.join(base, "cwd-%d-%d-%s" % (idx, run, "x" * run))
             os.makedirs(cwd, exist_ok=True)
-            out = os.path.join(base, r.choice(["out", "o", "deeply/nested/out dir"]) + "-%d-%d" % (idx, run))
+            # every run gets a parent directory of its own that holds nothing else: whatever appears in it
+            # beside the output directory was created outside the requested output directory
+            par = os.path.join(base, "par-%d-%d" % (idx, run))
+            out = os.path.join(par, r.choice(["out", "o", "deeply/nested/out dir"]))
             os.makedirs(os.path.dirname(out), exist_ok=True)   # only the output directory itself is the generator's to create
+            before = set()
+            for root, dirs, files in os.walk(par):
+                before.update(os.path.join(root, x) for x in dirs + files)
             env = dict(ENV)
             env.update({"TMPDIR": cwd, "HOME": cwd, "LANG": r.choice(["C", "en_US.UTF-8", "tr_TR.UTF-8"]), "TZ": r.choice(["UTC", "Asia/Tokyo", "America/New_York"]),
                         "RUST_BACKTRACE": r.choice(["0", "1"])})
@@ -299,11 +305,21 @@ def c20_shard(args):
                 rep["matrix"]["containment/strace-runs"] = rep["matrix"].get("containment/strace-runs", 0) + 1
                 if esc:
                     rep["violations"].append(violation("determinism", case_seed, "writes-outside-output-directory", {"origin": origin, "paths": esc[:5], "config": cfg}))
+            outn = os.path.normpath(out)
+            strays = []
+            for root, dirs, files in os.walk(par):
+                for x in dirs + files:
+                    q = os.path.join(root, x)
+                    if q not in before and not (q == outn or q.startswith(outn + os.sep)):
+                        strays.append(os.path.relpath(q, par))
+            rep["matrix"]["containment/listed-parents"] = rep["matrix"].get("containment/listed-parents", 0) + 1
+            if strays:
+                rep["violations"].append(violation("determinism", case_seed, "writes-outside-output-directory", {"origin": origin, "paths": sorted(strays)[:5], "config": cfg, "seen_by": "listing of the run's private parent directory"}))
             # nothing but the output directory may appear in the scratch cwd either
             extra = [e for e in os.listdir(cwd) if e != "trace.txt"]
             if extra:
                 rep["violations"].append(violation("determinism", case_seed, "files-created-in-cwd-or-tmp", {"origin": origin, "entries": extra[:5]}))
-            shutil.rmtree(out, ignore_errors=True)
+            shutil.rmtree(par, ignore_errors=True)
         sig = "%s|ex=%s|se=%s|strip=%s|crate=%s" % (origin if origin != "random" else "random", cfg["exhaustive"], cfg["serialize_empty"], cfg["strip"], bool(cfg["crate"]))
         distinct.add(fnv(sig))
         rep["matrix"]["config/" + sig.split("|", 1)[1]] = rep["matrix"].get("config/" + sig.split("|", 1)[1], 0) + 1
@@ -352,6 +368,6 @@ def c20_stage(prop, tier, seed, replay):
         rep["floors"]["configurations"] = [8, len([k for k in rep["matrix"] if k.startswith("config/")])]
         rep["floors"]["strace-runs"] = [10, rep["matrix"].get("containment/strace-runs", 0)]
     rep["notes"].append("each definition x configuration is generated 4 times in separate processes (2x library entry via genrun, 2x conjure-rust CLI) into fresh "
-                        "directories with different cwd/TMPDIR/HOME/LANG/TZ; file lists and SHA-256 of every file compared; every 5th CLI run under strace -f -e trace=%file")
+                        "directories with different cwd/TMPDIR/HOME/LANG/TZ; file lists and SHA-256 of every file compared; every run's private parent directory and cwd are listed afterwards (nothing but the output directory may appear); every 5th CLI run under strace -f -e trace=%file")
     rep["violations"] = rep["violations"][:100]
     return rep
